@@ -359,6 +359,8 @@ def eng_zerovalue(pid, tier, wd, known, replay=None):
 
 
 import engprog
+import clieng
+eng_cli = clieng.eng_cli
 engprog.props_oracle_core = oracle_core
 eng_prog = engprog.eng_prog
 
@@ -383,6 +385,12 @@ PROPS = {
     "C11": {"theorems": ["C11_colocated"], "engines": [eng_synth, eng_prog], "assumptions": [SYNTH_NOTE, "Go's method-set rule (types.Implements) is go/types' and is not modelled"]},
     "C14": {"theorems": ["C14_disambiguate_fresh", "C01_one_implementation"], "engines": [eng_prog],
             "assumptions": ["identifiers are ASCII in the model; non-ASCII names are outside the generated corpus"]},
+    "C17": {"theorems": ["C17_gen_exit", "C17_gen_footprint", "C17_failed_package_untouched", "C17_failure_does_not_block_others", "C17_diff_readonly", "C17_diff_exit"],
+            "engines": [eng_cli], "assumptions": ["partial: OS write semantics are modelled as whole-file replace, tied by before/after tree hashes", "per-package Generate results are inputs of the command model"]},
+    "C18": {"theorems": ["C18_history_independent", "C18_failed_gen_untouched", "C17_diff_readonly"], "engines": [eng_cli],
+            "assumptions": ["partial: that analysis is a function of the current sources (files constrained !wireinject are invisible under -tags=wireinject) is the section hypothesis content_of; it is exactly what the histories test against the binary"]},
+    "C19": {"theorems": ["C19_check_iff_gen", "C05_never_picks"], "engines": [eng_cli, eng_prog],
+            "assumptions": ["the `show` grouping is checked on the binary's output against the property's wording, its stack machine (gather) is not modelled in Coq"]},
 }
 
 HOOK_COMMITS = ["fc0854c"]
